@@ -222,11 +222,12 @@ mutual
 def instrS (cfg : Cfg) : Stmt → Nat → List Stmt × Nat
   | .assign targets value, n =>
     let v := instrE cfg value
+    -- the expressions inside of the targets (container, index, object) are rewritten like any other
     match targets with
-    | [t] => assignOne cfg t v n
+    | [t] => assignOne cfg (instrT cfg t) v n
     | ts =>
       let tmp := gensym n
-      match assignChain cfg (.name tmp) ts (n + 1) with
+      match assignChain cfg (.name tmp) (instrTL cfg ts) (n + 1) with
       | (ss, n') => (.assign [.name tmp] v :: ss, n')
   | .augassign t op value, n =>
     let s := Stmt.augassign (instrT cfg t) op (instrE cfg value)
@@ -236,7 +237,7 @@ def instrS (cfg : Cfg) : Stmt → Nat → List Stmt × Nat
         ([s, .assign [.name x] (interactE cfg x .noneLit none (.name x) true)], n)
       else ([s], n)
     | _ => ([s], n)
-  | .annassign t ann value, n => mkInteraction cfg t (some ann) (instrOpt cfg value) n
+  | .annassign t ann value, n => mkInteraction cfg (instrT cfg t) (some ann) (instrOpt cfg value) n
   | .expr e, n => ([.expr (instrE cfg e)], n)
   | .ret v, n =>
     let v' := match v with | Option.none => Expr.noneLit | Option.some e => instrE cfg e
@@ -263,7 +264,7 @@ def instrS (cfg : Cfg) : Stmt → Nat → List Stmt × Nat
         let vars := t.allNames.eraseDups
         let body := delimit cfg (genInteractions cfg t ++ b') (vars.map ("#loop_" ++ ·)) []
           (vars.map ("#endloop_" ++ ·)) none none
-        ([.for t (instrE cfg it) body o'], n2)
+        ([.for (instrT cfg t) (instrE cfg it) body o'], n2)
   | .try b hs o f, n =>
     match instrB cfg b n with
     | (b', n1) =>
@@ -276,7 +277,8 @@ def instrS (cfg : Cfg) : Stmt → Nat → List Stmt × Nat
   | .with c t b, n =>
     match instrB cfg b n with
     | (b', n1) =>
-      ([.with (instrE cfg c) t ((match t with | Option.none => [] | Option.some t => genInteractions cfg t) ++ b')], n1)
+      ([.with (instrE cfg c) (t.map (instrT cfg))
+          ((match t with | Option.none => [] | Option.some t => genInteractions cfg t) ++ b')], n1)
   | .defn name src loads, n => (.defn name src loads :: genName cfg name, n)
   | .cls name src loads, n => (.cls name src loads :: genName cfg name, n)
   | .imp bound src, n => (.imp bound src :: bound.flatMap (genName cfg), n)
